@@ -216,6 +216,18 @@ def drive(sc):
                                 fh.write(f"{n_}\tH{1 + i % 2}\t{['1000', '20000', '31'][i // k3]}\t{ch_}\n")
                             else:
                                 fh.write(f"{n_}\tnone\tnone\t{ch_}\n")
+            if cmd == "find_snv_multi":
+                # a pile-up in which several non-reference bases have exactly the same support (ties between ALT alleles)
+                ref0 = paths["seqs"][0][0]
+                trd = []
+                for col in (30, 61, 95):
+                    others = [b_ for b_ in "ACGT" if b_ != ref0[col]]
+                    for k_, b_ in enumerate(others * 2):
+                        st_ = col - 15 - k_
+                        seq_ = ref0[st_:col] + b_ + ref0[col + 1:st_ + 40]
+                        trd.append({"name": f"tie{col}_{k_}", "flag": 0, "ref": 0, "pos": st_, "cigar": "40M", "seq": seq_, "rg": "rg_" + names[0]})
+                W.write_bam(os.path.join(d, "ties.bam"), [(n_, len(sq_[0])) for n_, sq_ in zip(paths["names"], paths["seqs"])], trd,
+                            [{"ID": "rg_" + names[0], "SM": names[0]}])
             if cmd == "haplotagphase":
                 from whatshap.cli.unphase import run_unphase
                 with open(os.path.join(d, "unphased.vcf"), "w") as fh:
@@ -288,7 +300,7 @@ def drive(sc):
                                       "--regions", paths["names"][0] + ":1-160", "--regions", paths["names"][-1] + ":100-400",
                                       "--tag-supplementary", "--ignore-linked-read", "--sample", names[0], "--sample", names[2],
                                       os.path.join(d, "phased_copy.vcf.gz"), paths["bam"]], ["out.bam", "list.tsv"]),
-                "find_snv_multi": (["find_snv_candidates", paths["ref"], paths["bam"], "-o", "{out}/cand.vcf", "--multi-allelics", "--minabs", "1",
+                "find_snv_multi": (["find_snv_candidates", paths["ref"], os.path.join(d, "ties.bam"), "-o", "{out}/cand.vcf", "--multi-allelics", "--minabs", "1",
                                     "--minrel", "0.05", "--sample", "any"], ["cand.vcf"]),
                 "find_snv_candidates": (["find_snv_candidates", paths["ref"], paths["bam"], "-o", "{out}/cand.vcf", "--minabs", "1",
                                          "--minrel", "0.1"], ["cand.vcf"]),
